@@ -21,6 +21,12 @@ def corpus():
         "progress.script s1;s2;S1[s:s3];S1[s:s4];S1;T",
         "progress.script d;S1[s:d+d][f:d];T",
         "progress.stress 8 40000 10 0",
+        # whole runs: every way an iteration can fail (also inside a timed stage) is counted as failed; pushed metrics
+        "run prop=C01 mode=users conc=3 dur=400 body=1 maxit=40 failevery=2 failkind=timefail",
+        "run prop=C01 mode=users conc=3 dur=400 body=1 maxit=40 failevery=2 failkind=timeerr",
+        "run prop=C01 mode=constant rate=6/50ms dur=300 conc=3 body=2 failevery=3 failkind=panicerr",
+        "run prop=C01 mode=users conc=2 dur=300 body=2 maxit=30 failevery=3 pushgw=ok",
+        "run prop=C01 mode=users conc=2 dur=300 body=2 maxit=30 failevery=3 pushgw=fail1",     # the first push is refused
     ]
 
 
@@ -57,6 +63,11 @@ def generate(rng, tier):
     c = {"quick": 3, "thorough": 20, "search": 6}[tier]
     for _ in range(c):
         out.append("scn.counts %d %d %d" % (rng.choice([1, 4, 16]), rng.randint(50, 400), rng.randint(1, 10**6)))
+    for _ in range({"quick": 4, "thorough": 40, "search": 10}[tier]):
+        out.append("run prop=C01 mode=%s dur=300 conc=%d body=%d maxit=%d failevery=%d failkind=%s%s" % (
+            rng.choice(["users", "constant rate=6/50ms"]), rng.choice([1, 3]), rng.choice([0, 3]), rng.randint(5, 60), rng.choice([2, 3, 5]),
+            rng.choice(["failnow", "panicerr", "panicstr", "nilmap", "errorf", "timefail", "timeerr"]),
+            rng.choice(["", "", " pushgw=ok", " pushgw=fail1"])))
     return out
 
 
@@ -78,7 +89,9 @@ def distribution(recs):
     d = {"scripts": 0, "injected_records": 0, "collects_with_injection": 0, "stress_runs": 0, "component_runs": 0}
     for r in recs:
         c = r["case"]
-        if c.startswith("progress.stress"):
+        if c.startswith("run "):
+            d["whole_runs"] = d.get("whole_runs", 0) + 1
+        elif c.startswith("progress.stress"):
             d["stress_runs"] += 1
         elif c.startswith("scn."):
             d["component_runs"] += 1
